@@ -66,12 +66,16 @@ Definition indent_all_but_first (s : str) (indent_level : nat) (wipe : bool) : s
   end.
 
 (* multiline(s, quote_with=two empty strings) as used by to_docstring *)
+(* after fix: the continuation (blank, backslash, newline) appended after the last line is cut off by length,
+   [: -len(...)], instead of rstrip over the three characters, which used to eat characters of the text itself *)
+Definition drop_last3 (j : str) : str := firstn (List.length j - 3) j.
+
 Definition multiline_noquote (s : str) : str :=
-  rstrip_chars (L " " ++ [nl; ch 92]) (join tab (map (fun l => l ++ L " \" ++ [nl]) (splitlines s))).
+  drop_last3 (join tab (map (fun l => l ++ L " \" ++ [nl]) (splitlines s))).
 
 (* multiline(s) with the default quote marks *)
 Definition multiline_sq (s : str) : str :=
-  rstrip_chars (L " " ++ [nl; ch 92]) (join tab (map (fun l => sq :: l ++ sq :: L " \" ++ [nl]) (splitlines s))).
+  drop_last3 (join tab (map (fun l => sq :: l ++ sq :: L " \" ++ [nl]) (splitlines s))).
 
 Definition strip_split (sep s : str) : list str := map strip (split sep s).
 
